@@ -16,6 +16,13 @@ import SqiProofs.Primes
 import SqiProofs.GfX86Refines
 import SqiProofs.GfX86Inv
 import SqiGen.GfGcd
+import SqiProofs.FiatCheap
+import SqiProofs.FiatMul1
+import SqiProofs.FiatSqr1
+import SqiProofs.FiatMul3
+import SqiProofs.FiatSqr3
+import SqiProofs.FiatMul5
+import SqiProofs.FiatSqr5
 
 namespace SqiProps.C07
 open SqiModel.Gf SqiProofs.GfRef SqiProofs.GfMont SqiProofs.GfFp2
@@ -285,6 +292,84 @@ theorem fp2_batched_inv_zero_counterexample :
 example : dom2 (fun a => a < lvl1.p) (⟨3, 4⟩ : Fp2 Nat) ∧
     fp2_mul (Ref.ops lvl1) (fp2_inv (Ref.ops lvl1) ⟨3, 4⟩) ⟨3, 4⟩ = ⟨Ref.fp_set_one lvl1, 0⟩ := by
   refine ⟨⟨by decide +kernel, by decide +kernel⟩, by decide +kernel⟩
+
+/-! ## fiat-crypto files by translation (tie T)
+
+`SqiGen.Fiat{1,3,5}` are the fiat functions of fp_p5248.c / fp_p65376.c / fp_p27500.c as instruction lists, re-extracted on
+every run by tools/translate/fiat.py (mul, square, add, sub, opp, to/from_montgomery, nonzero, selectznz, to/from_bytes,
+set_one; the translator also checks that fp_add/sub/mul/sqr/tomont/frommont/mont_setone call exactly these). `SqiModel.Fiat.run`
+is the interpreter.  Proved for ALL inputs by symbolic execution (`SqiProofs.FiatExec`) + `omega`: the `mul` and `square` programs at ALL THREE
+levels are `montMul n p 1` (one `montStep` invariant per round, `SqiProofs.FiatMul{1,3,5}/FiatSqr{1,3,5}`), the level-1 `add` program is
+`Ref.fp_add lvl1`; `selectznz` and `set_one` at the three levels.  NOT proved (tied three ways on every run instead — real fiat
+function / interpreter on the extracted program / generic `montMul` model, tools/props/c07.py "fiat-programs"): to/from_montgomery at all levels, add at levels 3/5, sub, opp, nonzero, to/from_bytes (brute `omega` over the symbolic trace does
+not scale beyond ~17 instructions; a per-round invariant proof is the missing piece). -/
+
+theorem fiat_add_lvl1 (a0 a1 a2 a3 b0 b1 b2 b3 : Nat) (ha0 : a0 < 2^64) (ha1 : a1 < 2^64) (ha2 : a2 < 2^64) (ha3 : a3 < 2^64)
+    (hb0 : b0 < 2^64) (hb1 : b1 < 2^64) (hb2 : b2 < 2^64) (hb3 : b3 < 2^64) :
+    SqiModel.Fiat.evalBase SqiModel.Fiat.W (SqiModel.Fiat.run SqiGen.Fiat1.add [[a0,a1,a2,a3],[b0,b1,b2,b3]]) =
+      Ref.fp_add lvl1 (a0 + 2^64*a1 + 2^128*a2 + 2^192*a3) (b0 + 2^64*b1 + 2^128*b2 + 2^192*b3) :=
+  SqiProofs.FiatCheap.add_correct_1 a0 a1 a2 a3 b0 b1 b2 b3 ha0 ha1 ha2 ha3 hb0 hb1 hb2 hb3
+
+/-- **`fiat_p5248_mul` = generic word-by-word Montgomery multiplication**, for ALL 4-limb operands (not only reduced ones):
+    the program re-extracted from fp_p5248.c, run by the interpreter, returns `Ref.fp_mul lvl1 A B = montMul 4 p 1 A B`.
+    With `montMul_spec` this is the first end-to-end theorem from the fiat C text to `a·b·R⁻¹ mod p`. -/
+theorem fiat_mul_lvl1 (a0 a1 a2 a3 b0 b1 b2 b3 : Nat) (ha0 : a0 < 2^64) (ha1 : a1 < 2^64) (ha2 : a2 < 2^64) (ha3 : a3 < 2^64)
+    (hb0 : b0 < 2^64) (hb1 : b1 < 2^64) (hb2 : b2 < 2^64) (hb3 : b3 < 2^64) :
+    SqiModel.Fiat.evalBase SqiModel.Fiat.W (SqiModel.Fiat.run SqiGen.Fiat1.mul [[a0,a1,a2,a3],[b0,b1,b2,b3]]) =
+      Ref.fp_mul lvl1 (a0 + 2^64*a1 + 2^128*a2 + 2^192*a3) (b0 + 2^64*b1 + 2^128*b2 + 2^192*b3) := by
+  have h := SqiProofs.FiatMul1.mul_correct a0 a1 a2 a3 b0 b1 b2 b3 ha0 ha1 ha2 ha3 hb0 hb1 hb2 hb3
+  simpa [Ref.fp_mul, lvl1, Nat.mul_comm] using h
+
+/-- `fiat_p5248_square` likewise: `Ref.fp_sqr lvl1 A = montMul 4 p 1 A A` -/
+theorem fiat_square_lvl1 (a0 a1 a2 a3 : Nat) (ha0 : a0 < 2^64) (ha1 : a1 < 2^64) (ha2 : a2 < 2^64) (ha3 : a3 < 2^64) :
+    SqiModel.Fiat.evalBase SqiModel.Fiat.W (SqiModel.Fiat.run SqiGen.Fiat1.square [[a0,a1,a2,a3]]) =
+      Ref.fp_sqr lvl1 (a0 + 2^64*a1 + 2^128*a2 + 2^192*a3) := by
+  have h := SqiProofs.FiatSqr1.square_correct a0 a1 a2 a3 ha0 ha1 ha2 ha3
+  simpa [Ref.fp_sqr, lvl1, Nat.mul_comm] using h
+
+/-- `fiat_*_mul` at level 3 (6 limbs) = `Ref.fp_mul lvl3` (generic Montgomery model), ALL inputs -/
+theorem fiat_mul_lvl3 (a0 a1 a2 a3 a4 a5 b0 b1 b2 b3 b4 b5 : Nat) (ha0 : a0 < 18446744073709551616) (ha1 : a1 < 18446744073709551616) (ha2 : a2 < 18446744073709551616) (ha3 : a3 < 18446744073709551616) (ha4 : a4 < 18446744073709551616) (ha5 : a5 < 18446744073709551616) (hb0 : b0 < 18446744073709551616) (hb1 : b1 < 18446744073709551616) (hb2 : b2 < 18446744073709551616) (hb3 : b3 < 18446744073709551616) (hb4 : b4 < 18446744073709551616) (hb5 : b5 < 18446744073709551616) :
+    SqiModel.Fiat.evalBase SqiModel.Fiat.W (SqiModel.Fiat.run SqiGen.Fiat3.mul [[a0, a1, a2, a3, a4, a5], [b0, b1, b2, b3, b4, b5]]) =
+      Ref.fp_mul lvl3 (a0 + 18446744073709551616 * (a1) + 340282366920938463463374607431768211456 * (a2) + 6277101735386680763835789423207666416102355444464034512896 * (a3) + 115792089237316195423570985008687907853269984665640564039457584007913129639936 * (a4) + 2135987035920910082395021706169552114602704522356652769947041607822219725780640550022962086936576 * (a5)) (b0 + 18446744073709551616 * (b1) + 340282366920938463463374607431768211456 * (b2) + 6277101735386680763835789423207666416102355444464034512896 * (b3) + 115792089237316195423570985008687907853269984665640564039457584007913129639936 * (b4) + 2135987035920910082395021706169552114602704522356652769947041607822219725780640550022962086936576 * (b5)) := by
+  have h := SqiProofs.FiatMul3.mul_correct a0 a1 a2 a3 a4 a5 b0 b1 b2 b3 b4 b5 ha0 ha1 ha2 ha3 ha4 ha5 hb0 hb1 hb2 hb3 hb4 hb5
+  have hp : lvl3.p = 10004415635803285737492725025427089442696027549141617318033746372171765293544213631804403541279373111923557888163839 := by decide +kernel
+  unfold Ref.fp_mul; rw [hp]; exact h
+
+/-- `fiat_*_square` at level 3 = `Ref.fp_sqr lvl3`, ALL inputs -/
+theorem fiat_square_lvl3 (a0 a1 a2 a3 a4 a5 : Nat) (ha0 : a0 < 18446744073709551616) (ha1 : a1 < 18446744073709551616) (ha2 : a2 < 18446744073709551616) (ha3 : a3 < 18446744073709551616) (ha4 : a4 < 18446744073709551616) (ha5 : a5 < 18446744073709551616) :
+    SqiModel.Fiat.evalBase SqiModel.Fiat.W (SqiModel.Fiat.run SqiGen.Fiat3.square [[a0, a1, a2, a3, a4, a5]]) =
+      Ref.fp_sqr lvl3 (a0 + 18446744073709551616 * (a1) + 340282366920938463463374607431768211456 * (a2) + 6277101735386680763835789423207666416102355444464034512896 * (a3) + 115792089237316195423570985008687907853269984665640564039457584007913129639936 * (a4) + 2135987035920910082395021706169552114602704522356652769947041607822219725780640550022962086936576 * (a5)) := by
+  have h := SqiProofs.FiatSqr3.square_correct a0 a1 a2 a3 a4 a5 ha0 ha1 ha2 ha3 ha4 ha5
+  have hp : lvl3.p = 10004415635803285737492725025427089442696027549141617318033746372171765293544213631804403541279373111923557888163839 := by decide +kernel
+  unfold Ref.fp_sqr; rw [hp]; exact h
+
+/-- `fiat_*_mul` at level 5 (8 limbs) = `Ref.fp_mul lvl5` (generic Montgomery model), ALL inputs -/
+theorem fiat_mul_lvl5 (a0 a1 a2 a3 a4 a5 a6 a7 b0 b1 b2 b3 b4 b5 b6 b7 : Nat) (ha0 : a0 < 18446744073709551616) (ha1 : a1 < 18446744073709551616) (ha2 : a2 < 18446744073709551616) (ha3 : a3 < 18446744073709551616) (ha4 : a4 < 18446744073709551616) (ha5 : a5 < 18446744073709551616) (ha6 : a6 < 18446744073709551616) (ha7 : a7 < 18446744073709551616) (hb0 : b0 < 18446744073709551616) (hb1 : b1 < 18446744073709551616) (hb2 : b2 < 18446744073709551616) (hb3 : b3 < 18446744073709551616) (hb4 : b4 < 18446744073709551616) (hb5 : b5 < 18446744073709551616) (hb6 : b6 < 18446744073709551616) (hb7 : b7 < 18446744073709551616) :
+    SqiModel.Fiat.evalBase SqiModel.Fiat.W (SqiModel.Fiat.run SqiGen.Fiat5.mul [[a0, a1, a2, a3, a4, a5, a6, a7], [b0, b1, b2, b3, b4, b5, b6, b7]]) =
+      Ref.fp_mul lvl5 (a0 + 18446744073709551616 * (a1) + 340282366920938463463374607431768211456 * (a2) + 6277101735386680763835789423207666416102355444464034512896 * (a3) + 115792089237316195423570985008687907853269984665640564039457584007913129639936 * (a4) + 2135987035920910082395021706169552114602704522356652769947041607822219725780640550022962086936576 * (a5) + 39402006196394479212279040100143613805079739270465446667948293404245721771497210611414266254884915640806627990306816 * (a6) + 726838724295606890549323807888004534353641360687318060281490199180639288113397923326191050713763565560762521606266177933534601628614656 * (a7)) (b0 + 18446744073709551616 * (b1) + 340282366920938463463374607431768211456 * (b2) + 6277101735386680763835789423207666416102355444464034512896 * (b3) + 115792089237316195423570985008687907853269984665640564039457584007913129639936 * (b4) + 2135987035920910082395021706169552114602704522356652769947041607822219725780640550022962086936576 * (b5) + 39402006196394479212279040100143613805079739270465446667948293404245721771497210611414266254884915640806627990306816 * (b6) + 726838724295606890549323807888004534353641360687318060281490199180639288113397923326191050713763565560762521606266177933534601628614656 * (b7)) := by
+  have h := SqiProofs.FiatMul5.mul_correct a0 a1 a2 a3 a4 a5 a6 a7 b0 b1 b2 b3 b4 b5 b6 b7 ha0 ha1 ha2 ha3 ha4 ha5 ha6 ha7 hb0 hb1 hb2 hb3 hb4 hb5 hb6 hb7
+  have hp : lvl5.p = 88381546413195830490356121814345177109849335243162749316048866938595612502926212981848292492799412243073940471444121917248865926738905612439870244913151 := by decide +kernel
+  unfold Ref.fp_mul; rw [hp]; exact h
+
+/-- `fiat_*_square` at level 5 = `Ref.fp_sqr lvl5`, ALL inputs -/
+theorem fiat_square_lvl5 (a0 a1 a2 a3 a4 a5 a6 a7 : Nat) (ha0 : a0 < 18446744073709551616) (ha1 : a1 < 18446744073709551616) (ha2 : a2 < 18446744073709551616) (ha3 : a3 < 18446744073709551616) (ha4 : a4 < 18446744073709551616) (ha5 : a5 < 18446744073709551616) (ha6 : a6 < 18446744073709551616) (ha7 : a7 < 18446744073709551616) :
+    SqiModel.Fiat.evalBase SqiModel.Fiat.W (SqiModel.Fiat.run SqiGen.Fiat5.square [[a0, a1, a2, a3, a4, a5, a6, a7]]) =
+      Ref.fp_sqr lvl5 (a0 + 18446744073709551616 * (a1) + 340282366920938463463374607431768211456 * (a2) + 6277101735386680763835789423207666416102355444464034512896 * (a3) + 115792089237316195423570985008687907853269984665640564039457584007913129639936 * (a4) + 2135987035920910082395021706169552114602704522356652769947041607822219725780640550022962086936576 * (a5) + 39402006196394479212279040100143613805079739270465446667948293404245721771497210611414266254884915640806627990306816 * (a6) + 726838724295606890549323807888004534353641360687318060281490199180639288113397923326191050713763565560762521606266177933534601628614656 * (a7)) := by
+  have h := SqiProofs.FiatSqr5.square_correct a0 a1 a2 a3 a4 a5 a6 a7 ha0 ha1 ha2 ha3 ha4 ha5 ha6 ha7
+  have hp : lvl5.p = 88381546413195830490356121814345177109849335243162749316048866938595612502926212981848292492799412243073940471444121917248865926738905612439870244913151 := by decide +kernel
+  unfold Ref.fp_sqr; rw [hp]; exact h
+
+theorem fiat_set_one :
+    SqiModel.Fiat.runLimbs SqiGen.Fiat1.set_one 4 [] = Ref.fp_set_one lvl1 ∧
+    SqiModel.Fiat.runLimbs SqiGen.Fiat3.set_one 6 [] = Ref.fp_set_one lvl3 ∧
+    SqiModel.Fiat.runLimbs SqiGen.Fiat5.set_one 8 [] = Ref.fp_set_one lvl5 :=
+  ⟨SqiProofs.FiatCheap.set_one_correct_1, SqiProofs.FiatCheap.set_one_correct_3, SqiProofs.FiatCheap.set_one_correct_5⟩
+
+theorem fiat_selectznz_lvl1 (c a0 a1 a2 a3 b0 b1 b2 b3 : Nat) (ha0 : a0 < 2^64) (ha1 : a1 < 2^64) (ha2 : a2 < 2^64) (ha3 : a3 < 2^64)
+    (hb0 : b0 < 2^64) (hb1 : b1 < 2^64) (hb2 : b2 < 2^64) (hb3 : b3 < 2^64) :
+    SqiModel.Fiat.run SqiGen.Fiat1.selectznz [[c], [a0,a1,a2,a3], [b0,b1,b2,b3]] =
+      if c % 2 ^ 64 = 0 then [a0,a1,a2,a3] else [b0,b1,b2,b3] :=
+  SqiProofs.FiatCheap.selectznz_correct_1 c a0 a1 a2 a3 b0 b1 b2 b3 ha0 ha1 ha2 ha3 hb0 hb1 hb2 hb3
 
 /-! ## x86 ("broadwell") back-end, value-level model `SqiModel.GfX86`
 
